@@ -244,15 +244,19 @@ pub fn records(rng: &mut Rng, cfg: &Cfg) -> Vec<Rec> {
             out.push(Rec::Mtrix(k + 1, matrix(rng), rng.chance(1, 2)));
         }
     }
-    let n_models = if rng.chance(1, 3) { 0 } else { 1 + rng.below(3) };
+    // serial numbers that wrap around keep their offset across MODEL records, so a wrapping file has one model
+    let n_models = if rng.chance(1, 3) { 0 } else if cfg.wraps { 1 } else { 1 + rng.below(3) };
     let names = ["N", "CA", "C", "O", "CB", "SG", "ca", "OXT", "ZN", "H", "HA", "X1", "1HB"];
     let resnames = ["ALA", "GLY", "CYS", "HOH", "ala", "MSE", "ZN", "A"];
-    let mut serial = if cfg.wraps && rng.chance(1, 3) { 99_990 + rng.below(8) } else { 1 + rng.below(50) };
+    let first_serial = if cfg.wraps && rng.chance(1, 3) { 99_990 + rng.below(8) } else { 1 + rng.below(50) };
+    let mut serial = first_serial;
     let shape_seed = rng.next();
     for mi in 0..n_models.max(1) {
         if n_models > 0 {
             out.push(Rec::Model(mi + 1));
         }
+        // the serial numbers start again in every model (the models of a file describe the same atoms)
+        serial = first_serial;
         // models repeat the same shape (so that validation has nothing to report); values differ
         let mut r = Rng(shape_seed);
         let n_chains = 1 + r.below(3);
